@@ -41,9 +41,11 @@ STR_ALLOWED = [None, ["ab"], ["a", "abc"], ["", "abcd"]]
 STR_DEFAULTS = [None, "", "a", "abc", "abcd"]
 STR_PROBES = ["", "a", "ab", "abc", "abcd", "abcde", "é", "ééé", " ", "a b", "ab\n", "AB", "\x00", "𝔘𝔘𝔘", "x" * 1025]
 
-PATH_ALLOWED = [None, ["/ab"], ["a", "/c/a", ""], ["/t/a", "/abcd"]]
+PATH_ALLOWED = [None, ["/ab"], ["a", "/c/a", ""], ["/t/a", "/abcd"], ["/ab/", "/a//b", "/a/./b"]]
 PATH_DEFAULTS = [None, "", "a", "abc", "/ab"]
-PATH_PROBES = ["", "a", "ab", "abc", "/", "/a", "/ab", "/abc", "/abcd", "/c/a", "/t/a", "x" * 1020, "/" + "x" * 1030]
+PATH_PROBES = ["", "a", "ab", "abc", "/", "/a", "/ab", "/abc", "/abcd", "/c/a", "/t/a", "x" * 1020, "/" + "x" * 1030,
+               # absolute values in a spelling pathlib would rewrite: they are returned (and measured, and looked up) as given
+               "/ab/", "/a//b", "/a/./b", "//ab", "/ab/.", "/a/", "/./a"]
 
 EXTRA_NAMES = ["Q", "p", "P2", "é", ""]
 
